@@ -49,7 +49,11 @@ class FromManyInputs(Transformer, ABC):
 
     def process_run_result(self, run_output: Any | tuple) -> Any | tuple:
         self.outputs[self._output_name].value = run_output
-        return run_output
+        return self._outputs_to_run_return()
+
+    def _outputs_to_run_return(self):
+        # Also used on cache hits, so repeated calls return the same kind of object
+        return self.outputs[self._output_name].value
 
 
 class ToManyOutputs(Transformer, ABC):
